@@ -73,7 +73,7 @@ const splitCap = 200000
 func (ex *Exec) callSplit(fn *ssa.Function, args []Value, bind []Value, g *Term) Value {
 	var idx []int
 	total := 1
-	if len(args) > 2 {
+	if len(args) > 2 || ex.hasObligations(fn) {
 		return ex.callFunction(fn, args, bind, g)
 	}
 	for i, a := range args {
@@ -172,6 +172,32 @@ func mergeParts(n int, at func(i int) (*Term, Value)) Value {
 		}
 	}
 	return acc
+}
+
+// hasObligations: the function body itself states assertions / assumptions (harness code); such
+// calls are not split per case, so that one source assertion stays one obligation.
+func (ex *Exec) hasObligations(fn *ssa.Function) bool {
+	if v, ok := ex.oblCache[fn]; ok {
+		return v
+	}
+	r := false
+	for _, b := range fn.Blocks {
+		for _, ins := range b.Instrs {
+			if c, ok := ins.(*ssa.Call); ok {
+				if callee := c.Common().StaticCallee(); callee != nil && callee.Pkg != nil && callee.Pkg.Pkg.Path() == vrtPath {
+					switch callee.Name() {
+					case "Assert", "Assume", "Reach", "FrameBegin", "FrameUnchanged":
+						r = true
+					}
+				}
+			}
+		}
+	}
+	if ex.oblCache == nil {
+		ex.oblCache = map[*ssa.Function]bool{}
+	}
+	ex.oblCache[fn] = r
+	return r
 }
 
 func (ex *Exec) zeroResult(sig *types.Signature) Value {
@@ -305,6 +331,13 @@ func init() {
 		"math.Min":           func(ex *Exec, fn *ssa.Function, a []Value, g *Term, w string) Value { return FPOp(OpFPMin, a[0].(*Term), a[1].(*Term)) },
 		"math.IsNaN":         func(ex *Exec, fn *ssa.Function, a []Value, g *Term, w string) Value { return FPOp(OpFPIsNaN, a[0].(*Term)) },
 		"strconv.FormatFloat": inFormatFloat,
+		"strconv.Itoa": func(ex *Exec, fn *ssa.Function, a []Value, g *Term, w string) Value {
+			t := a[0].(*Term)
+			if !t.Liftable() {
+				unsupported("strconv.Itoa on a symbolic integer at %s", w)
+			}
+			return lift(SStr, func(cs []*Term) *Term { return Str(strconv.FormatInt(cs[0].i, 10)) }, t)
+		},
 		"io.Copy":             inIOCopy,
 		"text/template.New":   inTmplNew,
 		"(*text/template.Template).Parse":   inTmplParse,
